@@ -66,6 +66,7 @@ theorem spec_prunedCell (H : List UInt8 → List UInt8) (h : List UInt8) (d : Na
     Spec.hashAt H (prunedCell h d) 0 = h ∧ Spec.depthAt (prunedCell h d) 0 = d := by
   simp only [prunedCell, Spec.hashAt, Spec.depthAt, Spec.hashLevel, Spec.depthLevel, level_one, popcount_one,
     Nat.lt_irrefl, true_and, if_true, Nat.zero_lt_one, and_self, Spec.storedHash, Spec.storedDepth,
+    CellHashLemmas.packBytes_eq _ _ rfl,
     bitsToBytes_bytesToBits]
   constructor
   · simp [hh]
@@ -108,7 +109,8 @@ theorem hashLevel_zero (H) {ty : Nat} (hty : ty = tyOrdinary ∨ ty = tyLibrary)
         ((kd.map (· 0)).flatMap be16 ++ (kh.map (· 0)).flatten)) ∧
     Spec.depthLevel ty mask bits kd 0 = Spec.nodeDepth (kd.map (· 0)) := by
   obtain ⟨h1, _, _, h4⟩ := plain_ty hty
-  simp [Spec.hashLevel, Spec.depthLevel, h1, Spec.descr, Spec.maskBelow, Spec.childrenPart, h4, Nat.mod_one]
+  simp [Spec.hashLevel, Spec.depthLevel, h1, CellHashLemmas.descr_eq, CellHashLemmas.paddedData_eq, Spec.maskBelow,
+    CellHashLemmas.childrenPart_eq, h4, Nat.mod_one]
 
 mutual
 theorem specPrune_hash0 (H : List UInt8 → List UInt8) (hH : H32 H) (P : List Nat → Bool) :
